@@ -964,7 +964,24 @@ func c08Step(c *Ctx) {
 	var rec ssa.Instruction
 	var recArg ssa.Value
 	stepCall, _, _ = walkStepSite(c, walk, step)
-	ssau.Instrs(walk, func(in ssa.Instruction) {
+	// frame: the function in which a step is taken and recorded: Walk, or — when Walk's loop body is a function of
+	// its own (a method of a per-walk record, say) — the one function in Walk's closure that calls Step
+	frame := walk
+	if stepCall == nil {
+		var holders []*ssa.Call
+		for _, f := range walkScope(walk, step) {
+			ssau.Instrs(f, func(in ssa.Instruction) {
+				if cl, ok := in.(*ssa.Call); ok && cl.Common().StaticCallee() == step {
+					holders = append(holders, cl)
+				}
+			})
+		}
+		if len(holders) == 1 {
+			stepCall, frame = holders[0], holders[0].Parent()
+			c.R.Fn(fname(frame))
+		}
+	}
+	ssau.Instrs(frame, func(in ssa.Instruction) {
 		if ci, ok := in.(ssa.CallInstruction); ok {
 			if sc := ci.Common().StaticCallee(); sc != nil && sc.Blocks != nil && prog.PkgOf(sc) == "core" {
 				if e, _ := appendsToStrides(sc); e != nil {
@@ -980,7 +997,7 @@ func c08Step(c *Ctx) {
 		}
 	})
 	if rec == nil {
-		if e, at := appendsToStrides(walk); e != nil {
+		if e, at := appendsToStrides(frame); e != nil {
 			rec, recArg = at, e
 		}
 	}
@@ -989,7 +1006,14 @@ func c08Step(c *Ctx) {
 		return
 	}
 	ok := false
-	for _, d := range phiDefs(recArg, nil, map[ssa.Value]bool{}) {
+	// (the stride may pass through helpers of Walk that hand it on: `stride, err = ensureStride(st, stride, err)`)
+	var wscope []*ssa.Function
+	for _, f := range walkScope(walk, step) {
+		if f == walk || f != stepCall.Common().StaticCallee() {
+			wscope = append(wscope, f)
+		}
+	}
+	for _, d := range deepDefs(recArg, wscope) {
 		if ex, isEx := d.(*ssa.Extract); isEx && ex.Tuple == ssa.Value(stepCall) && ex.Index == 0 {
 			ok = true
 		}
@@ -1001,7 +1025,7 @@ func c08Step(c *Ctx) {
 	if ok && rec.Block() == stepCall.Block() && flow.Index(stepCall) < flow.Index(rec) {
 		// recorded in the very block that takes the step
 	} else if ok {
-		L := flow.InnermostLoop(flow.Loops(walk), stepCall.Block())
+		L := flow.InnermostLoop(flow.Loops(frame), stepCall.Block())
 		after := flow.ReachableFrom(stepCall.Block(), map[*ssa.BasicBlock]bool{rec.Block(): true})
 		for b := range after {
 			if b == rec.Block() {
